@@ -1,6 +1,6 @@
 // UNIT common.ipfix -- impl From<&IPFix> for NetflowCommon, verbatim from src/netflow_common.rs:178-236 (Option
 // combinators replaced by their definitions, R22; `.try_into()` through the R21 wrapper; the BTreeMap re-keying statement
-// is a contracted stub, R5).  C13: version and timestamp (export time) are the header's; one common flow per ELEMENT of
+// `values().cloned().collect()` replaced by the loop that defines it, R31).  C13: version and timestamp (export time) are the header's; one common flow per ELEMENT of
 // Data::fields, in set order then element order (nothing for template / options sets); each flow's fields are the
 // conversions of that element's values under the IPFIX information elements the property names.
 // KNOWN FINDING (known_findings.txt, findings/c13_ipfix_common_per_field.rs): the IPFIX decoder reports every FIELD of a
@@ -9,14 +9,18 @@
 // property's statement for data sets whose records have exactly one field.
 //@ include prelude.rs
 verus! {
+use std::collections::btree_map::Iter;
+use vstd::std_specs::iter::IteratorSpec;
+use vstd::std_specs::btree::*;
 #[verifier::external_body] pub struct FieldValue { _p: () }
+impl Clone for FieldValue { #[verifier::external_body] fn clone(&self) -> (r: Self) ensures r == *self { unimplemented!() } }
 #[verifier::external_body] pub struct ProtocolTypes { _p: () }
 #[verifier::external_body] pub struct Template { _p: () }
 #[verifier::external_body] pub struct OptionsTemplate { _p: () }
 #[verifier::external_body] pub struct OptionsData { _p: () }
 #[verifier::external_type_specification] #[verifier::external_body] pub struct ExIpAddr(std::net::IpAddr);
 pub use std::net::IpAddr;
-//@ type src/variable_versions/ipfix_lookup.rs - IPFixField
+//@ type src/variable_versions/ipfix_lookup.rs - IPFixField ord
 //@ alias src/variable_versions/ipfix.rs - IPFixFieldPair
 //@ type src/variable_versions/ipfix.rs - IPFix
 //@ type src/variable_versions/ipfix.rs - Header
@@ -28,18 +32,25 @@ pub use std::net::IpAddr;
 //@ type src/netflow_common.rs - NetflowCommonFlowSet
 pub type IPFixFlowSetBody = FlowSetBody;
 
-/// the record re-keyed by field type: `data_field.values().cloned().collect::<BTreeMap<IPFixField, FieldValue>>()`
-#[verifier::external_body] pub struct VfValueMap { _p: () }
-pub uninterp spec fn vm_get(m: VfValueMap, k: IPFixField) -> Option<FieldValue>;
-pub uninterp spec fn record_map(df: BTreeMap<usize, IPFixFieldPair>) -> VfValueMap;
-impl VfValueMap {
-    #[verifier::external_body]
-    pub fn get(&self, k: &IPFixField) -> (r: Option<&FieldValue>)
-        ensures match r { Some(v) => vm_get(*self, *k) == Some(*v), None => vm_get(*self, *k) is None },
-    { unimplemented!() }
-}
+/// ASSUMED: derive(Ord) on the field-type enum is a total order consistent with == (what vstd's BTreeMap model needs)
+pub axiom fn axiom_field_key_model()
+    ensures key_obeys_cmp_spec::<IPFixField>();
+/// the pairs of a record map in ITERATION order (std: ascending key order; vstd: an enumeration without order)
+pub uninterp spec fn bt_seq<'a>(m: &'a BTreeMap<usize, IPFixFieldPair>) -> Seq<(&'a usize, &'a IPFixFieldPair)>;
+// R27/R31 wrapper: `m.iter()` / `m.values()` on a record map (the body is the original call); ties the iterator to bt_seq
 #[verifier::external_body]
-pub fn vf_value_map(df: &BTreeMap<usize, IPFixFieldPair>) -> (r: VfValueMap) ensures r == record_map(*df) { unimplemented!() }
+pub fn vf_bt_iter<'a>(m: &'a BTreeMap<usize, IPFixFieldPair>) -> (it: Iter<'a, usize, IPFixFieldPair>)
+    ensures it.remaining() == bt_seq(m), bt_seq(m).len() == m@.len(),
+{ m.iter() }
+/// the record re-keyed by field type: the first n (type, value) pairs of the record, in iteration order, inserted into an
+/// empty map -- `data_field.values().cloned().collect::<BTreeMap<IPFixField, FieldValue>>()` (a later pair of the same type wins)
+pub open spec fn rmap(df: &BTreeMap<usize, IPFixFieldPair>, n: int) -> Map<IPFixField, FieldValue>
+    decreases n
+{
+    if n <= 0 { Map::<IPFixField, FieldValue>::empty() } else { rmap(df, n - 1).insert(bt_seq(df)[n - 1].1.0, bt_seq(df)[n - 1].1.1) }
+}
+pub open spec fn record_map(df: &BTreeMap<usize, IPFixFieldPair>) -> Map<IPFixField, FieldValue> { rmap(df, df@.len() as int) }
+pub open spec fn vm_get(m: Map<IPFixField, FieldValue>, k: IPFixField) -> Option<FieldValue> { if m.contains_key(k) { Some(m[k]) } else { None } }
 
 /// TryFrom<&FieldValue> for the five target types of the common view (leaf contracts: K.try.*)
 pub uninterp spec fn conv_ip(v: FieldValue) -> Option<IpAddr>;
@@ -69,7 +80,7 @@ pub open spec fn or2(a: Option<FieldValue>, b: Option<FieldValue>) -> Option<Fie
 pub open spec fn opt_conv<T: FvConv>(a: Option<FieldValue>) -> Option<T> { match a { Some(v) => T::conv(v), None => None } }
 /// the common flow of one record (C13: "equal the corresponding decoded fields of that record and are absent only when
 /// the record has no such field")
-pub open spec fn flow_of(m: VfValueMap) -> NetflowCommonFlowSet {
+pub open spec fn flow_of(m: Map<IPFixField, FieldValue>) -> NetflowCommonFlowSet {
     NetflowCommonFlowSet {
         src_addr: opt_conv::<IpAddr>(or2(vm_get(m, IPFixField::SourceIpv4address), vm_get(m, IPFixField::SourceIpv6address))),
         dst_addr: opt_conv::<IpAddr>(or2(vm_get(m, IPFixField::DestinationIpv4address), vm_get(m, IPFixField::DestinationIpv6address))),
@@ -87,7 +98,7 @@ pub open spec fn flow_of(m: VfValueMap) -> NetflowCommonFlowSet {
 pub open spec fn flows_of_records(recs: Seq<BTreeMap<usize, IPFixFieldPair>>, n: int) -> Seq<NetflowCommonFlowSet>
     decreases n
 {
-    if n <= 0 { Seq::<NetflowCommonFlowSet>::empty() } else { flows_of_records(recs, n - 1).push(flow_of(record_map(recs[n - 1]))) }
+    if n <= 0 { Seq::<NetflowCommonFlowSet>::empty() } else { flows_of_records(recs, n - 1).push(flow_of(record_map(&recs[n - 1]))) }
 }
 /// the flows of the first n flowsets: data flowsets contribute their records, everything else nothing
 pub open spec fn flows_of_sets(sets: Seq<FlowSet>, n: int) -> Seq<NetflowCommonFlowSet>
@@ -104,13 +115,22 @@ pub open spec fn flows_of_sets(sets: Seq<FlowSet>, n: int) -> Seq<NetflowCommonF
 impl NetflowCommon {
 //@ fn src/netflow_common.rs - /impl From<&IPFix> for NetflowCommon/ from
 //@   result: r
-//@   prerules: R22
+//@   prerules: R31 R22
 //@   rules: R21
-//@   opaque "let value_map: BTreeMap<IPFixField, FieldValue> =": let value_map = vf_value_map(data_field);
+//@   bodystart: proof { axiom_field_key_model(); }
 //@   ensures: r.version == value.header.version, r.timestamp == value.header.export_time
 //@   ensures: r.flowsets@ =~= flows_of_sets(value.flowsets@, value.flowsets@.len() as int)
 //@   forloop 0: it0 | invariant flowsets@ =~= flows_of_sets(value.flowsets@, it0.index@)
 //@   forloop 1: it1 | invariant flowsets@ =~= flows_of_sets(value.flowsets@, it0.index@) + flows_of_records(data.fields@, it1.index@)
+//@   beforeloop 0: let ghost all = bt_seq(data_field); let ghost n = data_field@.len() as int; let ghost mut k: int = 0;
+//@   loop 0: invariant_except_break 0 <= k <= n, __bi.remaining().len() + k == n, n == all.len(), all == bt_seq(data_field), n == data_field@.len(),
+//@           forall|j: int| 0 <= j < __bi.remaining().len() ==> __bi.remaining()[j] == all[j + k],
+//@           value_map@ =~= rmap(data_field, k),
+//@       ensures k == n, value_map@ =~= rmap(data_field, k), n == data_field@.len(),
+//@       decreases n - k
+//@   loopstart 0: proof { axiom_field_key_model(); }
+//@   loopend 0: proof { k = k + 1; }
+//@   forstart 1: proof { axiom_field_key_model(); }
 //@ end
 }
 } // verus!
